@@ -109,7 +109,7 @@ pub fn conclude(id: &str, tier: &str, seed: i64, wall_s: f64, o: &Outcome) -> i3
     let mut known_hits: Vec<(&Known, usize)> = vec![];
     let mut seen_sigs: Vec<(String, String)> = vec![];
     for f in &o.found {
-        if let Some(k) = known.iter().find(|k| k.status == "finding" && k.property == id && k.clause == f.clause && (k.sig == f.sig || k.sig == "*")) {
+        if let Some(k) = known.iter().find(|k| k.status == "finding" && k.property == id && k.clause == f.clause && (k.sig == f.sig || k.sig == "*" || (k.sig.ends_with('*') && f.sig.starts_with(&k.sig[..k.sig.len() - 1])))) {
             match known_hits.iter_mut().find(|(kk, _)| std::ptr::eq(*kk, k)) {
                 Some(e) => e.1 += 1,
                 None => known_hits.push((k, 1)),
